@@ -2018,9 +2018,10 @@ func (ls *LState) Resume(th *LState, fn *LFunction, args ...LValue) (ResumeState
 	if depth >= maxResumeDepth {
 		return ResumeError, newApiErrorS(ApiErrorRun, "C stack overflow"), nil
 	}
-	th.Parent = ls
-	ls.G.CurrentThread = th
+	// handing the arguments over and setting the first frame up can fail (registry overflow): the
+	// thread becomes the running one only after that
 	if !isstarted {
+		th.Dead = true // until its first frame is complete
 		cf := th.stack.Last()
 		th.currentFrame = cf
 		th.SetTop(0)
@@ -2030,12 +2031,15 @@ func (ls *LState) Resume(th *LState, fn *LFunction, args ...LValue) (ResumeState
 		cf.NArgs = len(args)
 		th.initCallFrame(cf)
 		th.Panic = panicWithoutTraceback
+		th.Dead = false
 	} else {
 		for _, arg := range args {
 			th.Push(arg)
 		}
 		th.padResumeValues(len(args))
 	}
+	th.Parent = ls
+	ls.G.CurrentThread = th
 	top := ls.GetTop()
 	threadRun(th)
 	haserror := LVIsFalse(ls.Get(top + 1))
